@@ -28,6 +28,20 @@ Theorem C32_perm_invariant :
     find_route T' method path = find_route T method path.
 Proof. exact perm_invariant. Qed.
 
+(* No hidden state: on one router, with registrations and lookups interleaved in any way, every lookup
+   answers find_route on the routes registered so far ... *)
+Theorem C32_history_table :
+  forall h m p, run [] (h ++ [Look m p]) = run [] h ++ [find_route (regs h) m p].
+Proof. exact history_table. Qed.
+
+(* ... so two histories that have registered the same routes (in any order, with any earlier
+   lookups, also of the same path) get the same answer for a request the table decides (det). *)
+Theorem C32_stateless :
+  forall h h' m p, Permutation (regs h) (regs h') ->
+    det (cands (regs h) (upper m) (split (norm p))) (split (norm p)) = true ->
+    exists o, run [] (h ++ [Look m p]) = run [] h ++ [o] /\ run [] (h' ++ [Look m p]) = run [] h' ++ [o].
+Proof. exact stateless. Qed.
+
 (* Fewer variables are preferred: unless a candidate is spelled exactly like the path, the chosen
    route has no more "{{" variables than any other candidate (any order, ambiguous or not). *)
 Theorem C32_fewest_vars :
@@ -47,5 +61,8 @@ Example C32_nonvacuous :
   find_route (rev T) sGET s_sql = Found (mkRoute s_sql ANY) /\
   (* two variable routes only: the one with fewer variables *)
   find_route [mkRoute s_var2 sGET; mkRoute s_var sGET] sGET s_sql = Found (mkRoute s_var sGET) /\
-  existsb (exact ps) (cands T sGET ps) = false.
+  existsb (exact ps) (cands T sGET ps) = false /\
+  (* history: the same path looked up before and after the more specific route is registered *)
+  run [] [Reg (mkRoute s_var sGET); Look sGET s_sql; Reg (mkRoute s_sql ANY); Look sGET s_sql]
+    = [Found (mkRoute s_var sGET); Found (mkRoute s_sql ANY)].
 Proof. vm_compute. repeat split; reflexivity. Qed.
